@@ -1373,3 +1373,310 @@ Proof.
     + pose proof (core_fields _ _ C3) as (F1 & _). rewrite F1. exact Hst.
     + apply Hx; assumption.
 Qed.
+
+(* ------------------------------------------------------------------ id handlers *)
+Ltac peel4 :=
+  lazymatch goal with
+  | |- Inv _ _ (session_start _ _) _ => apply session_start_inv
+  | |- Inv _ _ (sm_enable _) _ => apply sm_enable_inv
+  | |- Inv _ _ (auth_legacy _ _) _ => apply auth_legacy_inv
+  | _ => peel3
+  end.
+Ltac finish ::= repeat first [ assumption | peel4 | use_eq | case_goal ].
+
+Definition idbody (k : idk) (now : Z) (e : elem) (s : state) : R :=
+  let '(s1, o1) := call_id_handler k now e s in (id_del k s1, o1).
+
+Lemma idbody_inv p now e k s acc : ArmS MChunk s -> HE s -> Inv MChunk p s acc -> RInv MChunk p acc (idbody k now e s).
+Proof.
+  intros A He H. unfold idbody. destruct k; cbv beta iota delta [call_id_handler].
+  all: iwalk.
+  all: leaf.
+Qed.
+
+Lemma Inv_arm_of_handler p k s acc : In k (hkinds s) -> inN4 k = false -> Inv MChunk p s acc -> ArmS MChunk s.
+Proof.
+  intros Hin Hk H. destruct (IM _ _ _ _ _ H) as (_ & _ & M3).
+  assert (Hst : st s <> Disconnected).
+  { intros E. destruct (M3 E) as [N1 _]. specialize (N1 _ Hin). destruct k; discriminate. }
+  split; [intros _; exact Hst|]. intros _ Hm.
+  destruct (is_secured s) eqn:Q; [reflexivity|]. exfalso.
+  destruct (DM _ _ (ID _ _ _ _ _ H) Hst Hm Q) as (N1 & _). specialize (N1 _ Hin). congruence.
+Qed.
+Lemma Inv_arm_of_id p k s acc : In k (idkinds s) -> Inv MChunk p s acc -> ArmS MChunk s.
+Proof.
+  intros Hin H. destruct (IM _ _ _ _ _ H) as (_ & _ & M3).
+  assert (Hst : st s <> Disconnected).
+  { intros E. destruct (M3 E) as [_ N2]. change (idkinds s = []) in N2. rewrite N2 in Hin. exact Hin. }
+  split; [intros _; exact Hst|]. intros _ Hm.
+  destruct (is_secured s) eqn:Q; [reflexivity|]. exfalso.
+  destruct (DM _ _ (ID _ _ _ _ _ H) Hst Hm Q) as (_ & N2 & _). change (idkinds s = []) in N2. rewrite N2 in Hin. exact Hin.
+Qed.
+
+(* ------------------------------------------------------------------ one visited handler *)
+Lemma visit_hbody now e s o k :
+  visit now e (s, o) k =
+    if crashed s then (s, o) else if negb (h_has k s) then (s, o) else
+    if hkind_eqb k HUser && negb (neg_done s) then (s, o) else
+    if negb (filter_match k e) then (s, o) else
+    (fst (hbody k now e s), o ++ snd (hbody k now e s)).
+Proof.
+  unfold visit, hbody. repeat (case_goal; try reflexivity).
+Qed.
+
+Definition is_serr (e : elem) : bool := ns_eqb (e_ns e) NsStreams && ename_eqb (e_name e) NmError.
+Lemma filter_match_HError e : filter_match HError e = is_serr e.
+Proof. unfold filter_match, is_serr. change (hfilter HError) with (Some NsStreams, Some NmError). destruct (e_ns e), (e_name e); reflexivity. Qed.
+Lemma filter_match_serr k e : is_serr e = true -> filter_match k e = true -> k = HUser \/ k = HError.
+Proof.
+  unfold is_serr. intros Hs. apply andb_true_iff in Hs. destruct Hs as [H1 H2].
+  destruct (e_ns e) eqn:En; try discriminate H1. destruct (e_name e) eqn:Ee; try discriminate H2.
+  unfold filter_match. rewrite En, Ee.
+  destruct k; try (left; reflexivity); try (right; reflexivity); vm_compute; discriminate.
+Qed.
+
+Lemma visit_inv now e k s acc : is_serr e = false -> Inv MChunk None s acc ->
+  Inv MChunk None (fst (visit now e (s, acc) k)) (snd (visit now e (s, acc) k)).
+Proof.
+  intros Hns H. rewrite visit_hbody.
+  destruct (crashed s); [exact H|]. destruct (h_has k s) eqn:Hh; cbn [negb]; [|exact H].
+  destruct (hkind_eqb k HUser && negb (neg_done s)); [exact H|].
+  destruct (filter_match k e) eqn:Fm; cbn [negb]; [|exact H]. cbn [fst snd].
+  apply h_has_In in Hh.
+  destruct (inN4 k) eqn:N4.
+  - destruct k; try discriminate N4.
+    + apply hbody_user. exact H.
+    + rewrite filter_match_HError in Fm. congruence.
+    + apply hbody_features; assumption.
+    + apply hbody_proceedtls; assumption.
+  - apply hbody_post_auth; [exact N4 | exact (Inv_arm_of_handler _ _ _ _ Hh N4 H) | exact (Inv_HE _ _ _ H) | exact H].
+Qed.
+
+Lemma fold_visit_inv now e l : forall s acc, is_serr e = false -> Inv MChunk None s acc ->
+  Inv MChunk None (fst (fold_left (visit now e) l (s, acc))) (snd (fold_left (visit now e) l (s, acc))).
+Proof.
+  induction l as [|k l IH]; intros s acc Hns H; cbn [fold_left]; [exact H|].
+  pose proof (visit_inv now e k s acc Hns H) as Q. destruct (visit now e (s, acc) k) as [s1 o1]. cbn [fst snd] in Q.
+  apply IH; assumption.
+Qed.
+
+(* ------------------------------------------------------------------ the handler list through the id pass *)
+Lemma q_append_hl w u m s : handlers (q_append w u m s) = handlers s.
+Proof. unfold q_append. cbv zeta. repeat case_goal; reflexivity. Qed.
+Lemma send_gated_hl w u m s : handlers (send_gated w u m s) = handlers s.
+Proof. unfold send_gated. case_goal; [apply q_append_hl|reflexivity]. Qed.
+Lemma timed_add_hl k now s : handlers (timed_add k now s) = handlers s.
+Proof. unfold timed_add. case_goal; reflexivity. Qed.
+Lemma xmpp_disconnect_hl now s : handlers (xmpp_disconnect now s) = handlers s.
+Proof. unfold xmpp_disconnect. case_goal; try reflexivity; rewrite timed_add_hl; apply send_gated_hl. Qed.
+Lemma id_add_hl k s : handlers (id_add k s) = handlers s.
+Proof. unfold id_add. case_goal; reflexivity. Qed.
+Lemma id_del_hl k s : handlers (id_del k s) = handlers s.
+Proof. reflexivity. Qed.
+Lemma timed_del_hl k s : handlers (timed_del k s) = handlers s.
+Proof. reflexivity. Qed.
+Lemma session_start_hl now s : handlers (session_start now s) = handlers s.
+Proof. unfold session_start. rewrite send_gated_hl, timed_add_hl. apply id_add_hl. Qed.
+Lemma sns_hl s : handlers (fst (stream_negotiation_success s)) = handlers s.
+Proof. unfold stream_negotiation_success, upg. repeat case_goal; reflexivity. Qed.
+Lemma sm_enable_hl s : handlers (sm_enable s) = handlers (h_add HSm s).
+Proof. unfold sm_enable. cbv zeta. sproj. apply send_gated_hl. Qed.
+Lemma h_add_hl_mono k s x : In x (handlers s) -> In x (handlers (h_add k s)).
+Proof. unfold h_add. case_goal; [auto|]. sproj. intros H. apply in_or_app. left. exact H. Qed.
+
+Lemma idbody_hl now e k s x : In x (handlers s) -> In x (handlers (fst (idbody k now e s))).
+Proof.
+  intros H. unfold idbody. destruct k; cbv beta iota zeta delta [call_id_handler]; unfold ret.
+  all: repeat (case_goal; cbv beta iota); cbn [fst]; rewrite ?id_del_hl; sproj;
+    repeat match goal with
+           | E : stream_negotiation_success ?X = (?s1, _) |- context [handlers ?s1] =>
+               replace s1 with (fst (stream_negotiation_success X)) by (rewrite E; reflexivity); rewrite sns_hl; sproj
+           end;
+    rewrite ?xmpp_disconnect_hl, ?session_start_hl, ?sm_enable_hl; sproj;
+    try (apply h_add_hl_mono); rewrite ?timed_del_hl; sproj; exact H.
+Qed.
+
+(* ------------------------------------------------------------------ dispatching a <stream:error/> *)
+Definition FI (x : Z * bool) (p : option (Z * bool)) (s : state) (acc : emit) : Prop :=
+  Inv MChunk p s acc /\ g_serr (gh s) = Some x /\ (p = None \/ p = Some x).
+
+Lemma Inv_pend_irrel m p p' s acc : st s = Disconnected \/ is_raw s = true -> Inv m p s acc -> Inv m p' s acc.
+Proof.
+  intros Hd [HL [s1 s2 s3] HD HM]. constructor; try assumption. constructor; try assumption.
+  intros A B. exfalso. destruct Hd as [Hd|Hd]; [exact (A Hd)| change (is_raw s = false) in B; congruence].
+Qed.
+
+Lemma visit_serr now e k s acc p :
+  is_serr e = true -> FI (e_cond e, e_text e) p s acc ->
+  let r := visit now e (s, acc) k in
+  exists p', FI (e_cond e, e_text e) p' (fst r) (snd r) /\ st (fst r) = st s /\ is_raw (fst r) = is_raw s /\
+             (p = None -> p' = None) /\ (k = HError -> st s <> Disconnected -> is_raw s = false -> p' = None).
+Proof.
+  intros Hs (H & Hx & Hp). cbv zeta. rewrite visit_hbody.
+  destruct (crashed s) eqn:Cr.
+  { exfalso. destruct (K1 _ _ (IL _ _ _ _ _ H)) as [Q _]. change (crashed s = false) in Q. congruence. }
+  destruct (h_has k s) eqn:Hh; cbn [negb].
+  2:{ exists p. cbn [fst snd]. split; [unfold FI; auto|]. split; [reflexivity|]. split; [reflexivity|]. split; [auto|].
+      intros -> A B. exfalso. destruct (IM _ _ _ _ _ H) as (_ & M2 & _). specialize (M2 A B). apply h_has_In in M2. congruence. }
+  destruct (hkind_eqb k HUser && negb (neg_done s)) eqn:G.
+  { exists p. cbn [fst snd]. split; [unfold FI; auto|]. split; [reflexivity|]. split; [reflexivity|]. split; [auto|]. intros ->. discriminate G. }
+  destruct (filter_match k e) eqn:Fm; cbn [negb].
+  2:{ exists p. cbn [fst snd]. split; [unfold FI; auto|]. split; [reflexivity|]. split; [reflexivity|]. split; [auto|]. intros ->. rewrite filter_match_HError in Fm. congruence. }
+  cbn [fst snd].
+  destruct (filter_match_serr k e Hs Fm) as [-> | ->].
+  - exists p. unfold hbody. cbn [call_handler fst snd].
+    split; [split; [apply Inv_neutral; [reflexivity|exact H]|auto]|]. split; [reflexivity|]. split; [reflexivity|]. split; [auto|discriminate].
+  - exists None. pose proof (hbody_error MChunk p now e s acc Hx H) as Q. unfold RInv in Q.
+    unfold hbody in *. cbn [call_handler fst snd] in *.
+    split; [split; [exact Q|split; [exact Hx|left; reflexivity]]|]. split; [reflexivity|]. split; [reflexivity|]. split; auto.
+Qed.
+
+Lemma fold_visit_serr now e l : forall s acc p,
+  is_serr e = true -> FI (e_cond e, e_text e) p s acc ->
+  let r := fold_left (visit now e) l (s, acc) in
+  exists p', FI (e_cond e, e_text e) p' (fst r) (snd r) /\ st (fst r) = st s /\ is_raw (fst r) = is_raw s /\
+             (p = None \/ (In HError l /\ st s <> Disconnected /\ is_raw s = false) -> p' = None).
+Proof.
+  induction l as [|k l IH]; intros s acc p Hs H; cbn [fold_left]; cbv zeta.
+  - exists p. cbn [fst snd]. split; [exact H|]. split; [reflexivity|]. split; [reflexivity|]. intros [Q|[[] _]]. exact Q.
+  - destruct (visit_serr now e k s acc p Hs H) as (p1 & H1 & E1 & E2 & N1 & N2).
+    destruct (visit now e (s, acc) k) as [s1 o1]. cbn [fst snd] in *.
+    destruct (IH s1 o1 p1 Hs H1) as (p2 & H2 & E3 & E4 & N3). exists p2. split; [exact H2|].
+    split; [congruence|]. split; [congruence|].
+    intros [Q|([Q|Q] & A & B)]; apply N3.
+    + left. auto.
+    + left. apply N2; auto.
+    + right. rewrite E1, E2. auto.
+Qed.
+
+(* ------------------------------------------------------------------ the observer of received elements *)
+Definition gcore (g : ghost) := (g_attempt g, g_connects g, g_disconnects g, g_rawc g, g_se_bad g).
+Lemma note_rx_spec e s :
+  exists g', note_rx e s = set_gh g' s /\ gcore g' = gcore (gh s) /\
+             g_serr g' = if is_serr e then Some (e_cond e, e_text e) else g_serr (gh s).
+Proof.
+  cbv beta delta [note_rx].
+  repeat match goal with
+  | |- context C [let x := ?v in @?b x] =>
+      let x' := fresh "g" in
+      pose (x' := v); let g' := context C [b x'] in change g'; cbv beta;
+      first [ assert (gcore x' = gcore (gh s) /\ g_serr x' = g_serr (gh s)) by
+                (subst x'; repeat case_goal;
+                 repeat match goal with H : _ /\ _ |- _ => destruct H end; split; assumption || reflexivity);
+              clearbody x'
+            | idtac ]
+  end.
+  eexists. split; [reflexivity|].
+  subst g5. fold (is_serr e). destruct (is_serr e); repeat match goal with H : _ /\ _ |- _ => destruct H end; split; try assumption; reflexivity.
+Qed.
+
+Lemma Inv_note_rx e s acc : Inv MChunk None s acc ->
+  Inv MChunk (if is_serr e then Some (e_cond e, e_text e) else None) (note_rx e s) acc /\
+  handlers (note_rx e s) = handlers s /\ idhandlers (note_rx e s) = idhandlers s.
+Proof.
+  intros H. destruct (note_rx_spec e s) as (g' & E & Hg & Hs). rewrite E.
+  split; [|split; reflexivity].
+  unfold gcore in Hg. injection Hg as G1 G2 G3 G4 G5.
+  unfold Inv. change (deep (set_gh g' s)) with (deep s).
+  assert (C : core (set_gh g' s) =
+              mkCore (c_st (core s)) (c_nd (core s)) (c_raw (core s)) (c_alloc (core s)) (c_crashed (core s)) (c_se (core s))
+                     (c_att (core s)) (c_nc (core s)) (c_ndisc (core s)) (c_rawc (core s)) (g_serr g') (c_sebad (core s))).
+  { unfold core. sproj. core_simpl. rewrite G1, G2, G3, G4, G5. reflexivity. }
+  rewrite C.
+  apply (InvV_core_change2 MChunk None _ (core s) _ (deep s) acc acc); try reflexivity; [ | | exact H].
+  - apply LifeI_irrelevant. apply H.
+  - destruct H as [_ [s1 s2 s3] _ _]. constructor; core_simpl; try assumption.
+    intros A B. specialize (s2 A B). cbn in s2. rewrite Hs. destruct (is_serr e); [reflexivity|exact s2].
+Qed.
+
+Lemma deep_enable s : deep (set_handlers (map (fun x => (fst x, true)) (handlers s)) s) = deep s.
+Proof. unfold deep. sproj. rewrite map_map. cbn [fst]. reflexivity. Qed.
+
+Lemma idbody_st now e k s : st (fst (idbody k now e s)) = st s /\ is_raw (fst (idbody k now e s)) = is_raw s /\
+  g_serr (gh (fst (idbody k now e s))) = g_serr (gh s).
+Proof.
+  assert (G : forall x, core x = core s \/ (exists y, core y = core s /\ x = fst (stream_negotiation_success y)) -> st x = st s /\ is_raw x = is_raw s /\ g_serr (gh x) = g_serr (gh s)).
+  { intros x [C|(y & C & ->)].
+    - pose proof (core_fields _ _ C) as (F1 & _ & F3 & _ & _ & _ & _ & _ & _ & _ & F11 & _). auto.
+    - pose proof (core_fields _ _ C) as (F1 & _ & F3 & _ & _ & _ & _ & _ & _ & _ & F11 & _). rewrite <- F1, <- F3, <- F11.
+      destruct (sns_spec y) as [(_ & _ & E)|(_ & s' & E & C' & _)]; rewrite E; cbn [fst]; [auto|].
+      split; [change (c_st (core s') = st y)|split; [change (c_raw (core s') = is_raw y)|change (c_serr (core s') = g_serr (gh y))]]; rewrite C'; reflexivity. }
+  unfold idbody. destruct k; cbv beta iota zeta delta [call_id_handler]; unfold ret.
+  all: repeat (case_goal; cbv beta iota); cbn [fst];
+    repeat match goal with
+           | E : stream_negotiation_success ?X = (?s1, _) |- _ =>
+               replace s1 with (fst (stream_negotiation_success X)) by (rewrite E; reflexivity); clear E
+           end.
+  all: first [ apply G; left; autorewrite with ncore; reflexivity
+             | match goal with |- context [stream_negotiation_success ?X] =>
+                 change (st (fst (stream_negotiation_success X)) = st s /\ is_raw (fst (stream_negotiation_success X)) = is_raw s /\ g_serr (gh (fst (stream_negotiation_success X))) = g_serr (gh s));
+                 apply G; right; exists X; split; [autorewrite with ncore; reflexivity|reflexivity] end ].
+Qed.
+
+Lemma visit_prefix now e a s o k :
+  visit now e (s, a ++ o) k = (fst (visit now e (s, o) k), a ++ snd (visit now e (s, o) k)).
+Proof. rewrite !visit_hbody. repeat (case_goal; try reflexivity). cbn [fst snd]. rewrite app_assoc. reflexivity. Qed.
+Lemma fold_visit_prefix now e a l : forall s o,
+  fold_left (visit now e) l (s, a ++ o) =
+  (fst (fold_left (visit now e) l (s, o)), a ++ snd (fold_left (visit now e) l (s, o))).
+Proof.
+  induction l as [|k l IH]; intros s o; cbn [fold_left]; [reflexivity|].
+  rewrite visit_prefix. destruct (visit now e (s, o) k) as [s1 o1]. cbn [fst snd]. apply IH.
+Qed.
+
+(* ------------------------------------------------------------------ handler_fire_stanza *)
+Lemma dispatch_inv now e s0 acc : Inv MChunk None s0 acc -> RInv MChunk None acc (dispatch now e s0).
+Proof.
+  intros H0. unfold dispatch, RInv.
+  destruct (Inv_note_rx e s0 acc H0) as (Ha & Hha & Hia).
+  destruct (note_rx_spec e s0) as (g' & Eg & _ & Hserr).
+  set (sa := note_rx e s0) in *.
+  assert (Hal : sm_alloc sa = true) by (destruct (IM _ _ _ _ _ Ha) as ((_ & R2 & _) & _); exact R2).
+  rewrite Hal. cbn [negb].
+  set (sb := set_handlers (map (fun x => (fst x, true)) (handlers sa)) sa).
+  set (p1 := if is_serr e then Some (e_cond e, e_text e) else None) in *.
+  assert (Hb : Inv MChunk p1 sb acc) by (apply (Inv_frame _ _ sa); [reflexivity|apply deep_enable|exact Ha]).
+  assert (Hgb : g_serr (gh sb) = if is_serr e then Some (e_cond e, e_text e) else g_serr (gh s0)).
+  { change (g_serr (gh sa) = if is_serr e then Some (e_cond e, e_text e) else g_serr (gh s0)). rewrite Eg. exact Hserr. }
+  (* id pass *)
+  lazymatch goal with |- Inv _ _ (fst ?T) _ => lazymatch T with match ?F with _ => _ end => set (r1 := F) end end.
+  assert (H1 : Inv MChunk p1 (fst r1) (acc ++ snd r1) /\ st (fst r1) = st sb /\ is_raw (fst r1) = is_raw sb /\
+               g_serr (gh (fst r1)) = g_serr (gh sb) /\ (forall x, In x (handlers sb) -> In x (handlers (fst r1)))).
+  { subst r1. destruct (idk_of (e_id e)) as [k|]; [destruct (id_has k sb) eqn:Hid|].
+    - change (let '(s1, o1) := call_id_handler k now e sb in (id_del k s1, o1)) with (idbody k now e sb).
+      apply id_has_In in Hid. destruct (idbody_st now e k sb) as (I1 & I2 & I3).
+      split; [|split; [exact I1|split; [exact I2|split; [exact I3|intros x; apply idbody_hl]]]].
+      apply idbody_inv; [exact (Inv_arm_of_id _ _ _ _ Hid Hb) | exact (Inv_HE _ _ _ Hb) | exact Hb].
+    - cbn [ret fst snd]. rewrite app_nil_r. auto.
+    - cbn [ret fst snd]. rewrite app_nil_r. auto. }
+  destruct r1 as [s1 o1]. cbn [fst snd] in H1. destruct H1 as (H1 & Est & Eraw & Egs & Hmono).
+  (* name pass *)
+  set (snapshot := map fst (filter (fun x => snd x) (handlers s1))).
+  assert (H3 : Inv MChunk None (fst (fold_left (visit now e) snapshot (s1, acc ++ o1))) (snd (fold_left (visit now e) snapshot (s1, acc ++ o1)))).
+  { destruct (is_serr e) eqn:Hs.
+    - assert (HF : FI (e_cond e, e_text e) p1 s1 (acc ++ o1)).
+      { split; [exact H1|]. split; [rewrite Egs; exact Hgb|right; reflexivity]. }
+      destruct (fold_visit_serr now e snapshot s1 (acc ++ o1) p1 Hs HF) as (p' & (HI & _) & E3 & E4 & Hn). cbv zeta in *.
+      destruct (st s1) eqn:St1.
+      { apply (Inv_pend_irrel _ p'); [left; exact E3|exact HI]. }
+      all: destruct (is_raw s1) eqn:Rw1; [apply (Inv_pend_irrel _ p'); [right; exact E4|exact HI]|].
+      all: assert (Hp' : p' = None);
+        [ apply Hn; right; split; [|split; [discriminate|reflexivity]];
+          assert (Q : In HError (hkinds sa)) by
+            (destruct (IM _ _ _ _ _ Ha) as (_ & M2 & _); apply M2;
+             [change (st sb <> Disconnected); rewrite <- Est; discriminate | change (is_raw sb = false); symmetry; exact Eraw]);
+          unfold hkinds in Q; apply in_map_iff in Q; destruct Q as ([k b] & Ek & Q); cbn [fst] in Ek; subst k;
+          unfold snapshot; apply in_map_iff; exists (HError, true); split; [reflexivity|];
+          apply filter_In; split; [|reflexivity]; apply Hmono; unfold sb; sproj;
+          apply in_map_iff; exists (HError, b); split; [reflexivity|exact Q]
+        | rewrite Hp' in HI; exact HI ].
+    - apply fold_visit_inv; [exact Hs|exact H1]. }
+  rewrite fold_visit_prefix in H3. cbn [fst snd] in H3.
+  lazymatch goal with |- Inv _ _ (fst ?T) _ => lazymatch T with match ?F with _ => _ end =>
+    change (Inv MChunk None (fst F) (acc ++ snd F)) in H3; destruct F as [s3 o3] eqn:Ef end end.
+  cbn [fst snd] in H3.
+  assert (Hc : crashed s3 = false) by (destruct (K1 _ _ (IL _ _ _ _ _ H3)) as [Q _]; exact Q).
+  rewrite Hc. destruct (sm_enabled s3); cbn [fst snd].
+  - apply (Inv_frame _ _ s3); [apply sm_handle_core|apply sm_handle_deep|exact H3].
+  - exact H3.
+Qed.
